@@ -21,9 +21,17 @@ macro_rules! constr {
 }
 
 pub fn constr(index: u64, fields: Vec<PlutusData>) -> PlutusData {
+    // Plutus Data convention: alternatives 0-6 use tags 121-127, 7-127 use tags
+    // 1280-1400, anything larger uses the general tag 102 with an explicit index.
+    let (tag, any_constructor) = match index {
+        0..=6 => (121 + index, None),
+        7..=127 => (1280 + (index - 7), None),
+        _ => (102, Some(index)),
+    };
+
     PlutusData::Constr(Constr {
-        tag: 121 + index,
-        any_constructor: None,
+        tag,
+        any_constructor,
         fields: MaybeIndefArray::Def(fields),
     })
 }
@@ -84,8 +92,19 @@ impl IntoData for i64 {
 
 impl IntoData for i128 {
     fn as_data(&self) -> PlutusData {
-        let int = Int::try_from(*self).unwrap();
-        PlutusData::BigInt(BigInt::Int(int))
+        fn magnitude(x: u128) -> BoundedBytes {
+            let bytes = x.to_be_bytes();
+            let first = bytes.iter().position(|b| *b != 0).unwrap_or(bytes.len());
+            BoundedBytes::from(bytes[first..].to_vec())
+        }
+
+        match Int::try_from(*self) {
+            Ok(int) => PlutusData::BigInt(BigInt::Int(int)),
+            // outside the 64-bit CBOR integer range: use the bignum encodings, where
+            // a negative bignum n stands for -1 - n.
+            Err(_) if *self >= 0 => PlutusData::BigInt(BigInt::BigUInt(magnitude(*self as u128))),
+            Err(_) => PlutusData::BigInt(BigInt::BigNInt(magnitude(!*self as u128))),
+        }
     }
 }
 
